@@ -505,7 +505,7 @@ loop:
 	nviol := 0
 	if hung != nil {
 		// confirm in a fresh process (which has its own timer)
-		path := writeReplay(*hung, "C20-"+sanitize(hung.Violation.Key)+".json")
+		path := writeReplay(*hung, "C20-"+sanitize(strings.TrimPrefix(hung.Violation.Key, "C20:"))+".json")
 		v := replayChild("c20", path)
 		if v != nil && v.Key == hung.Violation.Key {
 			if k, ok := knownKeys[v.Key]; ok {
